@@ -165,6 +165,14 @@ class Spelling:
             a = "name%s%s%s%s" % (eq, q, e.name if e.name is not None else ("a" if e.ready else "b"), q)
         else:
             a = "q%s%s1%s" % (eq, q, q)
+        # one element in twelve repeats its condition attribute with the OPPOSITE verdict behind the first one (the first
+        # occurrence decides): `to='<expired>' to='<future>'`, `name='a' name='zz'`
+        if zlib.crc32(b"dup%d" % e.id) % 12 == 0:
+            if e.kind == "tl":
+                a += " to=%s%s%s" % (q, PEND_T if (e.to or (READY_T if e.ready else PEND_T)) != PEND_T else READY_T, q)
+            elif e.kind == "rm":
+                first = e.name if e.name is not None else ("a" if e.ready else "b")
+                a += " name=%s%s%s" % (q, "zz-never" if first in ("a", "") else "a", q)
         parts = [self.tagname(e.kind), a]
         if e.unwrap:
             # the attribute counts by its name: a quarter of the elements spell it with a value (chosen by the
